@@ -192,7 +192,7 @@ class SigmaDetectionItem(ProcessingItemTrackingMixin, ParentChainMixin):
                 source=self.source,
             )
 
-        if len(self.original_value) > 1:
+        if len(self.original_value) != 1:  # a list of values (also the empty list)
             value: str | int | float | bool | None | list[str | int | float | bool | None] = [
                 (
                     value.to_plain(True)
